@@ -122,6 +122,9 @@ def environment(clock, log_level):
 
 
 # ----------------------------------------------------------------------------- backends
+REJECTED_CALLS = [0]      # build calls the map refused (fault kind rejected_call), read and reset by session_stats
+
+
 def build_backend(world, backend, scratch, name="m"):
     """Build the real map backend for a world document."""
     latlon = bool(world.get("latlon"))
@@ -157,7 +160,7 @@ def build_backend(world, backend, scratch, name="m"):
                                 m.add_edge(a, b)
                                 accepted = True      # a tree that accepts dangling roads: not modelled, build again without
                             except Exception:
-                                pass
+                                REJECTED_CALLS[0] += 1
                     for l, p, _ in nodes:
                         if l in late_nodes:
                             m.add_node(l, p)
